@@ -53,6 +53,16 @@ def gen_tree(rng):
         # decorations: broken files, non-TOML files, empty dirs, dir named *.toml
         for _ in range(rng.choice([0, 0, 1, 2, 4])):
             k = rng.random()
+            if rng.random() < 0.25:
+                # hidden files: the shipped user directories contain `.placeholder`; editors leave `.x.toml.swp`; a
+                # dot-file sorts before every other entry of its directory
+                hid = rng.choice([".placeholder", ".DS_Store", ".dev.toml.swp", ".git"])
+                if not any(f[0] == hid for f in files[r]):
+                    if hid == ".git" and rng.random() < 0.5:
+                        files[r].append((hid, "dir", None, None))
+                    else:
+                        files[r].append((hid, "nontoml", dev_id, valid_cfg(dev_id)))
+                continue
             nm = rng.choice(["broken", "aaa", "zzz", "0", "x/y"]) + str(rng.randrange(100))
             # one decoration per base name and directory: a file and a directory of the same name cannot coexist
             if any(f[0].split(".")[0] == nm for f in files[r]):
